@@ -136,7 +136,10 @@ def run_molecular(ctx, of, rng, n):
         try:
             natoms = rng.choice([1, 2, 3])
             geom = [(rng.choice(['H', 'He', 'Li', 'O']), (rng.uniform(-1, 1), rng.uniform(-1, 1), float(k))) for k in range(natoms)]
-            m = of.MolecularData(geom, rng.choice(['sto-3g', 'cc-pvdz']), rng.choice([1, 3]), rng.choice([0, 1, -1]), description=rng.choice(['', 'test_1', '0.7414']), filename=os.path.join(tmp, 'mol'))
+            # explicit file names with and without the .hdf5 extension, base names ending in characters of the extension
+            base = rng.choice(['mol', 'mol', 'mol_0.75', 'record5', 'h2_dfh', 'x.', 'fd5h'])
+            given = base + rng.choice(['', '.hdf5'])
+            m = of.MolecularData(geom, rng.choice(['sto-3g', 'cc-pvdz']), rng.choice([1, 3]), rng.choice([0, 1, -1]), description=rng.choice(['', 'test_1', '0.7414']), filename=os.path.join(tmp, given))
             no = rng.choice([1, 2, 3])
             vals = {}
             for attr, mk in (('n_orbitals', lambda: no), ('n_qubits', lambda: 2 * no), ('nuclear_repulsion', lambda: rng.choice([0.0, np.float64(0.0), rng.uniform(0, 5)])), ('hf_energy', lambda: rng.choice([0.0, -rng.uniform(0, 5)])),
@@ -148,7 +151,8 @@ def run_molecular(ctx, of, rng, n):
             ok = True; why = ''
             for cycle in range(2):
                 m.save()
-                m2 = of.MolecularData(filename=os.path.join(tmp, 'mol'))
+                if sorted(os.listdir(tmp)) != [base + '.hdf5']: ok = False; why = 'saved under %r, directory holds %r' % (given, sorted(os.listdir(tmp)))
+                m2 = of.MolecularData(filename=os.path.join(tmp, base + ('.hdf5' if cycle else '')))
                 for attr in ('n_orbitals', 'n_qubits', 'nuclear_repulsion', 'hf_energy', 'fci_energy', 'orbital_energies', 'one_body_integrals', 'two_body_integrals', 'canonical_orbitals', 'mp2_energy', 'ccsd_energy'):
                     a = getattr(m, attr); b = getattr(m2, attr)
                     if a is None or b is None:
@@ -159,7 +163,7 @@ def run_molecular(ctx, of, rng, n):
                 m = m2
             ctx.count('molecular_data', 1, nontrivial_key=i)
             if not ok:
-                ctx.violation('C20 molecular_data: save/load does not return the same attributes (%s)' % why, {'call': 'MolecularData.save/load', 'geometry': repr(geom), 'set': sorted(vals), 'why': why})
+                ctx.violation('C20 molecular_data: save/load does not return the same attributes (%s)' % why, {'call': 'MolecularData.save/load', 'geometry': repr(geom), 'file_name_given': given, 'set': sorted(vals), 'why': why})
         except Exception as e:
             ctx.violation('C20 molecular_data: %s: %s' % (type(e).__name__, e), {'call': 'MolecularData.save/load', 'error': repr(e)})
         finally:
